@@ -89,6 +89,7 @@ pub struct PNode { pub parent: u64, pub name: Seq<char>, pub kids: Seq<u64> }
 pub struct PView { pub next: u64, pub nodes: Map<u64, PNode> }
 pub open spec fn incr(s: Seq<u64>) -> bool { forall|i: int, j: int| 0 <= i < j < s.len() ==> s[i] < s[j] }
 // a name a path component can carry: std::path::Component::Normal is never empty, "." or ".." and holds no separator
+#[verifier::opaque]
 pub open spec fn normal_name(n: Seq<char>) -> bool { n.len() > 0 && n != seq!['.'] && n != seq!['.', '.'] && !n.contains('/') }
 impl PseudoInode { pub open spec fn cell(&self) -> int { self.children.id() } }
 pub open spec fn kid_inos(s: Seq<Arc<PseudoInode>>) -> Seq<u64> { s.map_values(|a: Arc<PseudoInode>| a.ino) }
@@ -348,6 +349,305 @@ pub proof fn lemma_child_named(m: Map<u64, Arc<PseudoInode>>, root: Arc<PseudoIn
         if exists|j: int| has_child_named(v, d, n, j) { let c = choose|c: int| has_child_named(v, d, n, c); assert(ks[c].name@ == n); }
     }
 }
+// =====================================================================================================================
+// C07, the statement about mount / path_walk in the words of the property (proof functions over the abstract view; checked by Verus)
+// well-formedness of a view (what wf_m says about the abstract tree)
+pub open spec fn kname(v: PView, k: u64, i: int) -> Seq<char> { v.nodes[v.nodes[k].kids[i]].name }
+pub open spec fn kid_ok(v: PView, k: u64, j: int) -> bool { let c = v.nodes[k].kids[j]; v.nodes.contains_key(c) && v.nodes[c].parent == k && c != ROOT_ID && c < v.next }
+pub open spec fn kid_names_distinct(v: PView, k: u64) -> bool { forall|i: int, j: int| 0 <= i < j < v.nodes[k].kids.len() ==> #[trigger] kname(v, k, i) != #[trigger] kname(v, k, j) }
+pub open spec fn listed(v: PView, c: u64) -> bool { exists|z: int| 0 <= z < v.nodes[v.nodes[c].parent].kids.len() && #[trigger] v.nodes[v.nodes[c].parent].kids[z] == c }
+#[verifier::opaque]
+pub open spec fn vwf(v: PView) -> bool {
+    &&& v.nodes.contains_key(ROOT_ID) && v.nodes[ROOT_ID].parent == ROOT_ID
+    &&& forall|k: u64| #[trigger] v.nodes.contains_key(k) ==> 1 <= k < v.next && v.nodes.contains_key(v.nodes[k].parent)
+    &&& forall|k: u64, j: int| v.nodes.contains_key(k) && 0 <= j < v.nodes[k].kids.len() ==> #[trigger] kid_ok(v, k, j)
+    &&& forall|k: u64| #[trigger] v.nodes.contains_key(k) ==> incr(v.nodes[k].kids)
+    &&& forall|k: u64| #[trigger] v.nodes.contains_key(k) ==> kid_names_distinct(v, k)
+    &&& forall|c: u64| #[trigger] v.nodes.contains_key(c) && c != ROOT_ID ==> listed(v, c) && normal_name(v.nodes[c].name)
+}
+pub open spec fn comps_normal(cs: Seq<PComp>) -> bool { forall|j: int| 0 <= j < cs.len() && (#[trigger] cs[j]) is Normal ==> normal_name(cs[j]->Normal_0) }
+// v2 extends v: every node of v is still there with its parent and name, its children list only grew at the end; every other node carries a number
+// the counter handed out in between, and every such number names a node
+#[verifier::opaque]
+pub open spec fn extends_view(v: PView, v2: PView) -> bool {
+    &&& v.next <= v2.next
+    &&& forall|k: u64| #[trigger] v.nodes.contains_key(k) ==> v2.nodes.contains_key(k) && v2.nodes[k].parent == v.nodes[k].parent && v2.nodes[k].name == v.nodes[k].name
+            && v.nodes[k].kids.is_prefix_of(v2.nodes[k].kids)
+    &&& forall|k: u64| (#[trigger] v2.nodes.contains_key(k) && !v.nodes.contains_key(k)) <==> v.next <= k < v2.next
+}
+pub proof fn lemma_child_named_is(v: PView, d: u64, n: Seq<char>, j: int)
+    requires vwf(v), v.nodes.contains_key(d), has_child_named(v, d, n, j)
+    ensures child_named(v, d, n) == Some(v.nodes[d].kids[j])
+{
+    reveal(vwf); reveal(extends_view);
+    let c = choose|c: int| has_child_named(v, d, n, c);
+    if c < j { assert(kname(v, d, c) != kname(v, d, j)); }
+    if j < c { assert(kname(v, d, j) != kname(v, d, c)); }
+}
+proof fn lemma_add_child_kids(v: PView, d: u64, n: Seq<char>, k: u64, j: int)
+    requires vwf(v), v.nodes.contains_key(d), v.next < u64::MAX, add_child(v, d, n).nodes.contains_key(k), 0 <= j < add_child(v, d, n).nodes[k].kids.len()
+    ensures kid_ok(add_child(v, d, n), k, j), k != v.next,
+            k == d && j == v.nodes[d].kids.len() ==> add_child(v, d, n).nodes[k].kids[j] == v.next && kname(add_child(v, d, n), k, j) == n,
+            !(k == d && j == v.nodes[d].kids.len()) ==> v.nodes.contains_key(k) && j < v.nodes[k].kids.len() && add_child(v, d, n).nodes[k].kids[j] == v.nodes[k].kids[j] && kname(add_child(v, d, n), k, j) == kname(v, k, j),
+{
+    reveal(vwf); reveal(extends_view);
+    let x = v.next;
+    assert(!v.nodes.contains_key(x));
+    if k == d && j == v.nodes[d].kids.len() { }
+    else { assert(kid_ok(v, k, j)); }
+}
+proof fn lemma_add_child_incr(v: PView, d: u64, n: Seq<char>, k: u64)
+    requires vwf(v), v.nodes.contains_key(d), v.next < u64::MAX, add_child(v, d, n).nodes.contains_key(k)
+    ensures incr(add_child(v, d, n).nodes[k].kids)
+{
+    reveal(vwf); reveal(extends_view);
+    let x = v.next; let kd = v.nodes[d].kids;
+    assert(!v.nodes.contains_key(x));
+    if k == d {
+        assert(incr(kd));
+        assert forall|i: int, j: int| 0 <= i < j < kd.push(x).len() implies kd.push(x)[i] < kd.push(x)[j] by {
+            if j < kd.len() { assert(kd[i] < kd[j]); } else { assert(kid_ok(v, d, i)); }
+        }
+    } else if k != x { assert(v.nodes.contains_key(k)); assert(incr(v.nodes[k].kids)); }
+}
+proof fn lemma_add_child_names(v: PView, d: u64, n: Seq<char>, k: u64)
+    requires vwf(v), v.nodes.contains_key(d), v.next < u64::MAX, add_child(v, d, n).nodes.contains_key(k), child_named(v, d, n) is None
+    ensures kid_names_distinct(add_child(v, d, n), k)
+{
+    reveal(vwf); reveal(extends_view);
+    let w = add_child(v, d, n); let kd = v.nodes[d].kids;
+    assert forall|i: int, j: int| 0 <= i < j < w.nodes[k].kids.len() implies #[trigger] kname(w, k, i) != #[trigger] kname(w, k, j) by {
+        lemma_add_child_kids(v, d, n, k, i); lemma_add_child_kids(v, d, n, k, j);
+        if k == d && j == kd.len() { if kname(v, d, i) == n { assert(has_child_named(v, d, n, i)); } }
+        else { assert(kid_names_distinct(v, k)); assert(kname(v, k, i) != kname(v, k, j)); }
+    }
+}
+proof fn lemma_add_child_listed(v: PView, d: u64, n: Seq<char>, c: u64)
+    requires vwf(v), v.nodes.contains_key(d), v.next < u64::MAX, add_child(v, d, n).nodes.contains_key(c), c != ROOT_ID, normal_name(n)
+    ensures listed(add_child(v, d, n), c), normal_name(add_child(v, d, n).nodes[c].name)
+{
+    reveal(vwf); reveal(extends_view);
+    let w = add_child(v, d, n); let x = v.next; let kd = v.nodes[d].kids;
+    assert(!v.nodes.contains_key(x));
+    if c == x { assert(w.nodes[c].parent == d); assert(w.nodes[w.nodes[c].parent].kids[kd.len() as int] == c); }
+    else {
+        assert(v.nodes.contains_key(c)); assert(listed(v, c)); let q = v.nodes[c].parent;
+        let z = choose|z: int| 0 <= z < v.nodes[q].kids.len() && #[trigger] v.nodes[q].kids[z] == c;
+        assert(v.nodes.contains_key(q));
+        assert(w.nodes[c].parent == q); assert(w.nodes[w.nodes[c].parent].kids[z] == c);
+    }
+}
+proof fn lemma_add_child_ext(v: PView, d: u64, n: Seq<char>)
+    requires vwf(v), v.nodes.contains_key(d), v.next < u64::MAX
+    ensures extends_view(v, add_child(v, d, n))
+{
+    reveal(vwf); reveal(extends_view);
+    let w = add_child(v, d, n); let x = v.next; let kd = v.nodes[d].kids;
+    assert(!v.nodes.contains_key(x));
+    assert forall|k: u64| #[trigger] v.nodes.contains_key(k) implies w.nodes.contains_key(k) && w.nodes[k].parent == v.nodes[k].parent && w.nodes[k].name == v.nodes[k].name && v.nodes[k].kids.is_prefix_of(w.nodes[k].kids) by {
+        if k == d { assert(kd.is_prefix_of(kd.push(x))); }
+    }
+}
+pub proof fn lemma_add_child(v: PView, d: u64, n: Seq<char>)
+    requires vwf(v), v.nodes.contains_key(d), child_named(v, d, n) is None, v.next < u64::MAX, normal_name(n)
+    ensures vwf(add_child(v, d, n)), extends_view(v, add_child(v, d, n)), add_child(v, d, n).nodes.contains_key(v.next),
+            has_child_named(add_child(v, d, n), d, n, v.nodes[d].kids.len() as int), add_child(v, d, n).nodes[d].kids[v.nodes[d].kids.len() as int] == v.next,
+{
+    reveal(vwf); reveal(extends_view);
+    let w = add_child(v, d, n); let x = v.next; let kd = v.nodes[d].kids;
+    assert(!v.nodes.contains_key(x));
+    lemma_add_child_ext(v, d, n);
+    assert forall|k: u64, j: int| w.nodes.contains_key(k) && 0 <= j < w.nodes[k].kids.len() implies #[trigger] kid_ok(w, k, j) by { lemma_add_child_kids(v, d, n, k, j); }
+    assert forall|k: u64| #[trigger] w.nodes.contains_key(k) implies incr(w.nodes[k].kids) by { lemma_add_child_incr(v, d, n, k); }
+    assert forall|k: u64| #[trigger] w.nodes.contains_key(k) implies kid_names_distinct(w, k) by { lemma_add_child_names(v, d, n, k); }
+    assert forall|c: u64| #[trigger] w.nodes.contains_key(c) && c != ROOT_ID implies listed(w, c) && normal_name(w.nodes[c].name) by { lemma_add_child_listed(v, d, n, c); }
+    lemma_add_child_kids(v, d, n, d, kd.len() as int);
+}
+pub proof fn lemma_vwf_parent(v: PView, k: u64)
+    requires vwf(v), v.nodes.contains_key(k)
+    ensures v.nodes.contains_key(v.nodes[k].parent), 1 <= k < v.next
+{ reveal(vwf); }
+pub proof fn lemma_vwf_kid(v: PView, k: u64, j: int)
+    requires vwf(v), v.nodes.contains_key(k), 0 <= j < v.nodes[k].kids.len()
+    ensures kid_ok(v, k, j)
+{ reveal(vwf); }
+pub proof fn lemma_extends_refl(v: PView) ensures extends_view(v, v) { reveal(extends_view); }
+pub proof fn lemma_extends_node(v: PView, v2: PView, k: u64)
+    requires extends_view(v, v2), v.nodes.contains_key(k)
+    ensures v2.nodes.contains_key(k), v2.nodes[k].parent == v.nodes[k].parent, v2.nodes[k].name == v.nodes[k].name, v.nodes[k].kids.is_prefix_of(v2.nodes[k].kids), v.next <= v2.next
+{ reveal(extends_view); }
+pub proof fn lemma_extends_trans(a: PView, b: PView, c: PView)
+    requires extends_view(a, b), extends_view(b, c)
+    ensures extends_view(a, c)
+{
+    reveal(vwf); reveal(extends_view);
+    assert forall|k: u64| #[trigger] a.nodes.contains_key(k) implies a.nodes[k].kids.is_prefix_of(c.nodes[k].kids) by {
+        assert(b.nodes.contains_key(k));
+        let x = a.nodes[k].kids; let y = b.nodes[k].kids; let z = c.nodes[k].kids;
+        assert(x.is_prefix_of(y) && y.is_prefix_of(z));
+        assert(x =~= z.subrange(0, x.len() as int)) by { assert(x =~= y.subrange(0, x.len() as int)); assert(y =~= z.subrange(0, y.len() as int)); }
+    }
+    assert forall|k: u64| #[trigger] c.nodes.contains_key(k) && !a.nodes.contains_key(k) <==> a.next <= k < c.next by {
+        if c.nodes.contains_key(k) && !a.nodes.contains_key(k) { if b.nodes.contains_key(k) { assert(a.next <= k < b.next); } else { assert(b.next <= k < c.next); } }
+        if a.next <= k < c.next { if k < b.next { assert(b.nodes.contains_key(k) && !a.nodes.contains_key(k)); } else { assert(c.nodes.contains_key(k) && !b.nodes.contains_key(k)); if a.nodes.contains_key(k) { assert(b.nodes.contains_key(k)); } } }
+    }
+}
+// what mount does to the tree, in the words of the property
+pub proof fn lemma_mount_frame(v: PView, cur: u64, cs: Seq<PComp>)
+    requires vwf(v), v.nodes.contains_key(cur), v.next + cs.len() <= VFS_MAX_INO + 1, mount_spec(v, cur, cs) is Some, comps_normal(cs)
+    ensures ({ let v2 = mount_spec(v, cur, cs)->Some_0.0; let r = mount_spec(v, cur, cs)->Some_0.1;
+        &&& vwf(v2) && v2.nodes.contains_key(r)
+        &&& extends_view(v, v2)                                  // [C07.pseudo.mount.frame]
+        &&& v2.next <= v.next + cs.len()                         // [C07.pseudo.mount.limit]
+    }),
+    decreases cs.len()
+{
+    if cs.len() == 0 { lemma_extends_refl(v); }
+    else {
+        let rest = cs.skip(1);
+        assert(comps_normal(rest)) by { assert forall|j: int| 0 <= j < rest.len() && (#[trigger] rest[j]) is Normal implies normal_name(rest[j]->Normal_0) by { assert(rest[j] == cs[j + 1]); } }
+        match cs[0] {
+            PComp::Prefix => { }
+            PComp::RootDir => { lemma_mount_frame(v, cur, rest); }
+            PComp::CurDir => { lemma_mount_frame(v, cur, rest); }
+            PComp::ParentDir => { lemma_vwf_parent(v, cur); lemma_mount_frame(v, v.nodes[cur].parent, rest); }
+            PComp::Normal(n) => {
+                match child_named(v, cur, n) {
+                    Some(c) => { let j = choose|j: int| has_child_named(v, cur, n, j); lemma_vwf_kid(v, cur, j); lemma_mount_frame(v, c, rest); }
+                    None => {
+                        lemma_vwf_parent(v, cur);
+                        lemma_add_child(v, cur, n);
+                        let v1 = add_child(v, cur, n);
+                        lemma_mount_frame(v1, v.next, rest);
+                        lemma_extends_trans(v, v1, mount_spec(v, cur, cs)->Some_0.0);
+                    }
+                }
+            }
+        }
+    }
+}
+// idempotent: mounting a path whose components all exist changes nothing and returns what path_walk finds
+pub proof fn lemma_mount_idempotent(v: PView, cur: u64, cs: Seq<PComp>)
+    requires walk_spec(v, cur, cs) is Found
+    ensures mount_spec(v, cur, cs) == Some((v, walk_spec(v, cur, cs)->Found_0))          // [C07.pseudo.mount.idempotent]
+    decreases cs.len()
+{
+    if cs.len() > 0 {
+        let rest = cs.skip(1);
+        match cs[0] {
+            PComp::Prefix => { }
+            PComp::RootDir => { lemma_mount_idempotent(v, cur, rest); }
+            PComp::CurDir => { lemma_mount_idempotent(v, cur, rest); }
+            PComp::ParentDir => { lemma_mount_idempotent(v, v.nodes[cur].parent, rest); }
+            PComp::Normal(n) => { match child_named(v, cur, n) { Some(c) => { lemma_mount_idempotent(v, c, rest); } None => { } } }
+        }
+    }
+}
+// a resolved name stays resolved, to the same node, in every extension of the tree
+pub proof fn lemma_child_named_extends(v: PView, v2: PView, d: u64, n: Seq<char>)
+    requires vwf(v), vwf(v2), extends_view(v, v2), v.nodes.contains_key(d), child_named(v, d, n) is Some
+    ensures child_named(v2, d, n) == child_named(v, d, n)
+{
+    reveal(vwf); reveal(extends_view);
+    let j = choose|j: int| has_child_named(v, d, n, j);
+    let c = v.nodes[d].kids[j];
+    assert(kid_ok(v, d, j));
+    assert(v.nodes[d].kids.is_prefix_of(v2.nodes[d].kids));
+    assert(v2.nodes[d].kids[j] == c);
+    assert(has_child_named(v2, d, n, j));
+    lemma_child_named_is(v2, d, n, j);
+}
+pub proof fn lemma_walk_extends(v: PView, v2: PView, cur: u64, cs: Seq<PComp>)
+    requires vwf(v), vwf(v2), extends_view(v, v2), v.nodes.contains_key(cur), walk_spec(v, cur, cs) is Found
+    ensures walk_spec(v2, cur, cs) == walk_spec(v, cur, cs), v.nodes.contains_key(walk_spec(v, cur, cs)->Found_0)   // creating directories never changes what an existing path resolves to [C07.pseudo.walk.stable]
+    decreases cs.len()
+{
+    if cs.len() > 0 {
+        let rest = cs.skip(1);
+        match cs[0] {
+            PComp::Prefix => { }
+            PComp::RootDir => { lemma_walk_extends(v, v2, cur, rest); }
+            PComp::CurDir => { lemma_walk_extends(v, v2, cur, rest); }
+            PComp::ParentDir => { lemma_vwf_parent(v, cur); lemma_extends_node(v, v2, cur); lemma_walk_extends(v, v2, v.nodes[cur].parent, rest); }
+            PComp::Normal(n) => { match child_named(v, cur, n) {
+                Some(c) => { let j = choose|j: int| has_child_named(v, cur, n, j); lemma_vwf_kid(v, cur, j); lemma_child_named_extends(v, v2, cur, n); lemma_walk_extends(v, v2, c, rest); }
+                None => { } } }
+        }
+    }
+}
+// after mount(path), path_walk(path) finds exactly the inode mount returned
+pub proof fn lemma_mount_then_walk(v: PView, cur: u64, cs: Seq<PComp>)
+    requires vwf(v), v.nodes.contains_key(cur), v.next + cs.len() <= VFS_MAX_INO + 1, mount_spec(v, cur, cs) is Some, comps_normal(cs)
+    ensures walk_spec(mount_spec(v, cur, cs)->Some_0.0, cur, cs) == PWalk::Found(mount_spec(v, cur, cs)->Some_0.1)     // [C07.pseudo.mount.then_walk]
+    decreases cs.len()
+{
+    let v2 = mount_spec(v, cur, cs)->Some_0.0;
+    lemma_mount_frame(v, cur, cs);
+    if cs.len() > 0 {
+        let rest = cs.skip(1);
+        assert(comps_normal(rest)) by { assert forall|j: int| 0 <= j < rest.len() && (#[trigger] rest[j]) is Normal implies normal_name(rest[j]->Normal_0) by { assert(rest[j] == cs[j + 1]); } }
+        match cs[0] {
+            PComp::Prefix => { }
+            PComp::RootDir => { lemma_mount_then_walk(v, cur, rest); }
+            PComp::CurDir => { lemma_mount_then_walk(v, cur, rest); }
+            PComp::ParentDir => { lemma_vwf_parent(v, cur); lemma_extends_node(v, v2, cur); lemma_mount_then_walk(v, v.nodes[cur].parent, rest); }
+            PComp::Normal(n) => { match child_named(v, cur, n) {
+                Some(c) => { let j = choose|j: int| has_child_named(v, cur, n, j); lemma_vwf_kid(v, cur, j); lemma_child_named_extends(v, v2, cur, n); lemma_mount_then_walk(v, c, rest); }
+                None => {
+                    lemma_vwf_parent(v, cur);
+                    lemma_add_child(v, cur, n);
+                    let v1 = add_child(v, cur, n);
+                    lemma_mount_frame(v1, v.next, rest);
+                    lemma_mount_then_walk(v1, v.next, rest);
+                    lemma_child_named_is(v1, cur, n, v.nodes[cur].kids.len() as int);
+                    lemma_child_named_extends(v1, v2, cur, n);
+                } } }
+        }
+    }
+}
+
+// the concrete invariant gives the abstract one
+pub proof fn lemma_wf_view(m: Map<u64, Arc<PseudoInode>>, root: Arc<PseudoInode>, nx: u64, h: PHeap)
+    requires wf_m(m, root, nx, h)
+    ensures vwf(view_m(m, nx, h))                                                           // [C07.pseudo.view.wf]
+{
+    reveal(vwf);
+    let v = view_m(m, nx, h);
+    assert forall|k: u64, j: int| v.nodes.contains_key(k) && 0 <= j < v.nodes[k].kids.len() implies #[trigger] kid_ok(v, k, j) by {
+        let c = mkids(m, h, k)[j]; assert(m.contains_key(c.ino) && m[c.ino] == c && c.parent == k);
+    }
+    assert forall|k: u64| #[trigger] v.nodes.contains_key(k) implies kid_names_distinct(v, k) by {
+        assert forall|i: int, j: int| 0 <= i < j < v.nodes[k].kids.len() implies #[trigger] kname(v, k, i) != #[trigger] kname(v, k, j) by {
+            let a = mkids(m, h, k)[i]; let b = mkids(m, h, k)[j];
+            assert(m[a.ino] == a && m[b.ino] == b); assert(a.name@ != b.name@);
+        }
+    }
+    assert forall|c: u64| #[trigger] v.nodes.contains_key(c) && c != ROOT_ID implies listed(v, c) && normal_name(v.nodes[c].name) by {
+        let q = m[c].parent; assert(mkids(m, h, q).contains(m[c]));
+        let z = choose|z: int| 0 <= z < mkids(m, h, q).len() && mkids(m, h, q)[z] == m[c];
+        assert(v.nodes[c].parent == q); assert(v.nodes[v.nodes[c].parent].kids[z] == c);
+    }
+}
+
+// ---- C07 for the pseudo tree, top level: what the postcondition of `mount` (clause C07.pseudo.mount.result) means for a well-formed pseudo fs
+pub proof fn lemma_c07_mount(m: Map<u64, Arc<PseudoInode>>, root: Arc<PseudoInode>, nx: u64, h: PHeap, cs: Seq<PComp>, other: Seq<PComp>)
+    requires wf_m(m, root, nx, h), nx + cs.len() <= VFS_MAX_INO + 1, comps_normal(cs), mount_spec(view_m(m, nx, h), ROOT_ID, cs) is Some
+    ensures ({ let v = view_m(m, nx, h); let v2 = mount_spec(v, ROOT_ID, cs)->Some_0.0; let r = mount_spec(v, ROOT_ID, cs)->Some_0.1;
+        &&& walk_spec(v2, ROOT_ID, cs) == PWalk::Found(r)                       // walking the mount path afterwards ends in the inode mount returned [C07.pseudo.mount.then_walk]
+        &&& extends_view(v, v2)                                                 // old nodes keep parent, name and the order of their children; new nodes are numbered v.next .. v2.next - 1, each number once [C07.pseudo.mount.frame]
+        &&& v2.next <= VFS_MAX_INO + 1 && vwf(v2)                               // every number in use stays below the pseudo-inode limit [C07.pseudo.mount.limit]
+        &&& (walk_spec(v, ROOT_ID, cs) is Found ==> v2 == v && PWalk::Found(r) == walk_spec(v, ROOT_ID, cs))        // [C07.pseudo.mount.idempotent]
+        &&& (walk_spec(v, ROOT_ID, other) is Found ==> walk_spec(v2, ROOT_ID, other) == walk_spec(v, ROOT_ID, other))   // every other existing path resolves as before [C07.pseudo.walk.stable]
+    }),
+{
+    let v = view_m(m, nx, h);
+    lemma_wf_view(m, root, nx, h);
+    assert(v.nodes.contains_key(ROOT_ID)) by { reveal(vwf); }
+    lemma_mount_frame(v, ROOT_ID, cs);
+    lemma_mount_then_walk(v, ROOT_ID, cs);
+    if walk_spec(v, ROOT_ID, cs) is Found { lemma_mount_idempotent(v, ROOT_ID, cs); }
+    if walk_spec(v, ROOT_ID, other) is Found { lemma_walk_extends(v, mount_spec(v, ROOT_ID, cs)->Some_0.0, ROOT_ID, other); }
+}
 """
 
 FSM = r"""
@@ -397,8 +697,10 @@ pub const DT_DIR: u32 = 4;          // libc::DT_DIR (dirent.h): the entry is a d
 pub ghost struct CallRec { pub ino: u64, pub off: u64, pub ty: u32, pub name: Seq<u8>, pub ok: Option<usize> }
 pub trait AddEntry {
     spec fn log(&self) -> Seq<CallRec>;
+    spec fn inv(&self) -> bool;          // a property of the object that every call preserves (used by the readdirplus adapter)
     fn call(&mut self, d: DirEntry<'_>) -> (r: Result<usize>)
-        ensures final(self).log() == old(self).log().push(CallRec { ino: d.ino, off: d.offset, ty: d.type_, name: d.name@, ok: match r { Ok(n) => Some(n), Err(_) => None } });
+        ensures final(self).log() == old(self).log().push(CallRec { ino: d.ino, off: d.offset, ty: d.type_, name: d.name@, ok: match r { Ok(n) => Some(n), Err(_) => None } }),
+                old(self).inv() ==> final(self).inv();
 }
 pub open spec fn new_calls(log: Seq<CallRec>, log0: Seq<CallRec>) -> Seq<CallRec> { log.skip(log0.len() as int) }
 pub open spec fn extends(log: Seq<CallRec>, log0: Seq<CallRec>) -> bool { log.len() >= log0.len() && log.take(log0.len() as int) =~= log0 }
@@ -424,6 +726,100 @@ pub open spec fn pseudo_entry(e: Entry, ino: u64) -> bool {
     &&& e.inode == ino && e.generation == 0 && e.attr_flags == 0
     &&& e.attr == (stat64 { st_ino: ino, st_mode: 0o040777u32, st_blksize: 4096, st_atime: e.attr.st_ctime, st_mtime: e.attr.st_ctime, st_ctime: e.attr.st_ctime, ..zero_stat64() })
     &&& e.attr_timeout == (Duration { secs: 0x1_0000_0000, nanos: 0 }) && e.entry_timeout == e.attr_timeout
+}
+// =====================================================================================================================
+// C16, the statement across calls (proof functions; checked by Verus)
+// entry i of a pseudo directory carries the continuation offset i + 1 (never 0)
+pub open spec fn entries_ok(es: Seq<PEnt>) -> bool { es.len() <= u64::MAX && forall|i: int| 0 <= i < es.len() ==> (#[trigger] es[i]).off == i + 1 }
+// resuming from the offset delivered with entry i starts right after entry i; offset 0 starts at the beginning
+pub proof fn lemma_resume_after(es: Seq<PEnt>, i: int)
+    requires entries_ok(es), 0 <= i < es.len()
+    ensures es[i].off != 0, run_after(es, es[i].off) =~= es.skip(i + 1), run_after(es, 0) =~= es       // [C16.pseudo.lemma.resume]
+{ }
+// the accepted calls of one do_readdir: all of them, or all but the last
+pub open spec fn n_accepted(calls: Seq<CallRec>) -> int { if calls.len() > 0 && !accepted(calls.last()) { calls.len() - 1 } else { calls.len() as int } }
+// one READDIR exchange as the client sees it: asked for `off`, was delivered `got` - a prefix of the run after `off`
+pub open spec fn exchange_ok(es: Seq<PEnt>, off: u64, got: Seq<PEnt>) -> bool { got.is_prefix_of(run_after(es, off)) }
+// an empty reply only when nothing is left (the callback log says so if the first entry offered is accepted: "buffer sizes that can hold at least the next entry")
+pub open spec fn progress(es: Seq<PEnt>, off: u64, got: Seq<PEnt>) -> bool { got.len() == 0 ==> run_after(es, off).len() == 0 }
+pub proof fn lemma_exchange_from_calls(es: Seq<PEnt>, off: u64, calls: Seq<CallRec>) -> (got: Seq<PEnt>)
+    requires delivered_ok(run_after(es, off), calls)
+    ensures exchange_ok(es, off, got), got.len() == n_accepted(calls),
+            forall|j: int| 0 <= j < got.len() ==> accepted(#[trigger] calls[j]) && call_matches(calls[j], got[j]),    // what was delivered are entries of the directory with their own ino / offset / name [C16.pseudo.lemma.exchange]
+            (calls.len() > 0 ==> accepted(calls[0])) ==> progress(es, off, got),                                      // [C16.pseudo.lemma.progress]
+{
+    let run = run_after(es, off);
+    let got = run.take(n_accepted(calls));
+    got
+}
+pub open spec fn concat(g: Seq<Seq<PEnt>>) -> Seq<PEnt> decreases g.len() { if g.len() == 0 { Seq::empty() } else { concat(g.drop_last()) + g.last() } }
+// a client that starts at 0 and resumes each time from the offset of the last entry it was delivered
+pub open spec fn session(es: Seq<PEnt>, offs: Seq<u64>, gots: Seq<Seq<PEnt>>) -> bool {
+    offs.len() == gots.len() && offs.len() > 0 && offs[0] == 0
+    && (forall|k: int| 0 <= k < offs.len() ==> exchange_ok(es, #[trigger] offs[k], gots[k]) && progress(es, offs[k], gots[k]))
+    && (forall|k: int| 0 <= k < offs.len() - 1 ==> (#[trigger] gots[k]).len() > 0 && offs[k + 1] == gots[k].last().off)
+}
+pub proof fn lemma_c16(es: Seq<PEnt>, offs: Seq<u64>, gots: Seq<Seq<PEnt>>, k: int)
+    requires entries_ok(es), session(es, offs, gots), 0 <= k < offs.len()
+    ensures offs[k] <= es.len(),
+            concat(gots.take(k)) =~= es.take(offs[k] as int),                 // before exchange k the client holds exactly the first offs[k] children, each once, in order [C16.pseudo.lemma.prefix]
+            gots[k].len() == 0 ==> concat(gots.take(k + 1)) =~= es,            // the listing that ends with an empty reply is the whole directory, every child exactly once [C16.pseudo.lemma.exactly_once]
+    decreases k
+{
+    if k == 0 {
+        assert(gots.take(0) =~= Seq::<Seq<PEnt>>::empty());
+    } else {
+        lemma_c16(es, offs, gots, k - 1);
+        let off = offs[k - 1]; let got = gots[k - 1];
+        assert(got.len() > 0 && exchange_ok(es, off, got));
+        let run = run_after(es, off);
+        assert(got.last() == run[got.len() - 1]);
+        assert(run[got.len() - 1] == es[off + got.len() - 1]);
+        assert(gots.take(k).drop_last() =~= gots.take(k - 1));
+        assert(gots.take(k).last() == got);
+        assert(got =~= es.subrange(off as int, off + got.len()));
+    }
+    if gots[k].len() == 0 {
+        assert(progress(es, offs[k], gots[k]));
+        assert(gots.take(k + 1).drop_last() =~= gots.take(k));
+        assert(gots.take(k + 1).last() == gots[k]);
+        assert(concat(gots.take(k + 1)) =~= concat(gots.take(k)) + gots[k]);
+    }
+}
+
+pub proof fn lemma_incr_bound(s: Seq<u64>, i: int)
+    requires incr(s), 0 <= i < s.len(), s[0] >= 1
+    ensures s[i] >= i + 1
+    decreases i
+{ if i > 0 { lemma_incr_bound(s, i - 1); assert(s[i - 1] < s[i]); } }
+// what a pseudo directory lists is its children: each exactly once (numbers strictly increase), offset i + 1 with entry i, never "." or ".."
+pub proof fn lemma_dir_entries_ok(v: PView, d: u64)
+    requires vwf(v), v.nodes.contains_key(d)
+    ensures entries_ok(dir_entries(v, d)), dir_entries(v, d).len() == v.nodes[d].kids.len(),
+            forall|i: int, j: int| 0 <= i < j < dir_entries(v, d).len() ==> (#[trigger] dir_entries(v, d)[i]).ino != (#[trigger] dir_entries(v, d)[j]).ino,    // [C16.pseudo.lemma.each_child_once]
+            forall|i: int| 0 <= i < dir_entries(v, d).len() ==> (#[trigger] dir_entries(v, d)[i]).name != utf8_enc(dot()) && dir_entries(v, d)[i].name != utf8_enc(dotdot()),   // [C16.pseudo.lemma.no_dots]
+{
+    reveal(vwf); reveal(normal_name);
+    let es = dir_entries(v, d); let ks = v.nodes[d].kids;
+    if ks.len() > 0 { assert(kid_ok(v, d, 0)); lemma_incr_bound(ks, ks.len() - 1); }
+    assert forall|i: int, j: int| 0 <= i < j < es.len() implies (#[trigger] es[i]).ino != (#[trigger] es[j]).ino by { assert(ks[i] < ks[j]); }
+    assert forall|i: int| 0 <= i < es.len() implies (#[trigger] es[i]).name != utf8_enc(dot()) && es[i].name != utf8_enc(dotdot()) by {
+        assert(kid_ok(v, d, i));
+        let n = v.nodes[ks[i]].name; assert(normal_name(n));
+        axiom_utf8_inverse(n); axiom_utf8_inverse(dot()); axiom_utf8_inverse(dotdot());
+    }
+}
+pub open spec fn last_refused(calls: Seq<CallRec>) -> bool { calls.len() > 0 && !accepted(calls.last()) }
+
+// ---- C16 for a pseudo directory, top level: any session that starts at 0, resumes from the offset of the last entry delivered and ends with an empty reply
+// has listed every child of the (unchanged) directory exactly once, in order, "." and ".." never
+pub proof fn lemma_c16_pseudo(v: PView, d: u64, offs: Seq<u64>, gots: Seq<Seq<PEnt>>, k: int)
+    requires vwf(v), v.nodes.contains_key(d), session(dir_entries(v, d), offs, gots), 0 <= k < offs.len(), gots[k].len() == 0
+    ensures concat(gots.take(k + 1)) =~= dir_entries(v, d),                                             // [C16.pseudo.lemma.exactly_once]
+            forall|i: int, j: int| 0 <= i < j < dir_entries(v, d).len() ==> (#[trigger] dir_entries(v, d)[i]).ino != (#[trigger] dir_entries(v, d)[j]).ino,   // [C16.pseudo.lemma.each_child_once]
+{
+    lemma_dir_entries_ok(v, d);
+    lemma_c16(dir_entries(v, d), offs, gots, k);
 }
 // the steps of the listing loop (checked)
 #[verifier::opaque]
@@ -461,6 +857,40 @@ SLICE = r"""
 #[verifier::external_body] pub fn vx_slice_from<'a, T>(v: &'a Arc<Vec<T>>, a: usize) -> (r: &'a [T]) requires a <= v@.len() ensures r@ == v@.skip(a as int) { unimplemented!() }
 """
 
+PLUS = r"""
+// ---- readdirplus: the callback `&mut dyn FnMut(DirEntry, Entry) -> io::Result<usize>` as a generic object with a ghost log, and the closure readdirplus
+// hands to do_readdir as an adapter object.  R17: that closure is its lifted text (fn readdirplus_entry below, VERIFIED: same dir_entry, the entry
+// get_entry builds for its number) followed by the continuation add_entry; the adapter's `call` contract states exactly this composition (assumed link).
+pub ghost struct PlusRec { pub base: CallRec, pub entry: Entry }
+pub trait AddEntryPlus {
+    spec fn plog(&self) -> Seq<PlusRec>;
+    fn call(&mut self, d: DirEntry<'_>, e: Entry) -> (r: Result<usize>)
+        ensures final(self).plog() == old(self).plog().push(PlusRec { base: CallRec { ino: d.ino, off: d.offset, ty: d.type_, name: d.name@, ok: match r { Ok(n) => Some(n), Err(_) => None } }, entry: e });
+}
+pub open spec fn bases(l: Seq<PlusRec>) -> Seq<CallRec> { l.map_values(|r: PlusRec| r.base) }
+#[verifier::external_body] #[verifier::reject_recursive_types(B)] pub struct PlusSink<B> { _p: PhantomData<B> }
+impl<B: AddEntryPlus> PlusSink<B> {
+    pub uninterp spec fn plog(&self) -> Seq<PlusRec>;
+    pub uninterp spec fn all_pseudo(&self) -> bool;     // every entry this adapter has handed on carried the directory attributes of its own number
+}
+impl<B: AddEntryPlus> AddEntry for PlusSink<B> {
+    open spec fn log(&self) -> Seq<CallRec> { bases(self.plog()) }
+    open spec fn inv(&self) -> bool { self.all_pseudo() }
+    #[verifier::external_body] fn call(&mut self, d: DirEntry<'_>) -> (r: Result<usize>)
+        ensures exists|e: Entry| pseudo_entry(e, d.ino) && final(self).plog() == old(self).plog().push(PlusRec { base: CallRec { ino: d.ino, off: d.offset, ty: d.type_, name: d.name@, ok: match r { Ok(n) => Some(n), Err(_) => None } }, entry: e })
+    { unimplemented!() }
+}
+// the adapter borrows the callback: what it logs is what the callback logs
+#[verifier::external_body] pub fn plus_sink<'a, B: AddEntryPlus>(fs: &'a PseudoFs, inner: &'a mut B) -> (r: &'a mut PlusSink<B>)
+    ensures r.plog() == old(inner).plog(), final(inner).plog() == final(r).plog(), r.all_pseudo(),
+            final(r).all_pseudo() ==> (forall|j: int| old(inner).plog().len() <= j < final(inner).plog().len() ==> pseudo_entry((#[trigger] final(inner).plog()[j]).entry, final(inner).plog()[j].base.ino))
+{ unimplemented!() }
+pub proof fn lemma_bases_skip(l: Seq<PlusRec>, n: int)
+    requires 0 <= n <= l.len()
+    ensures bases(l).skip(n) =~= bases(l.skip(n)), bases(l).take(n) =~= bases(l.take(n)), bases(l).len() == l.len()
+{ }
+"""
+
 
 def tok(f, callees):
     f.rules = tuple(getattr(f, 'rules', ())) + ('R23',)
@@ -469,16 +899,14 @@ def tok(f, callees):
 
 
 LOADCLONE_K = (r'self\.children\.load\(\)\.deref\(\)\.deref\(\)\.clone\(\)', 'self.children.load_clone(Tracked(hp))', 'snapshot of the children vector held by the cell (Guard -> Arc -> Vec, cloned), with the ghost heap (R23)')
-STORE_K = (r'self\.children\.store\(Arc::new\(children\)\)', 'self.children.store(Arc::new(children), Tracked(hp))', 'ghost heap token (R23) for the ArcSwap store')
 NEW_K = (r'ArcSwap::new\(Arc::new\(Vec::new\(\)\)\)', 'ArcSwapH::new(Arc::new(Vec::new()), Tracked(hp))', 'heap cell + ghost heap token (R23)')
 LOADCLONE_T = (r'self\.inodes\.load\(\)\.deref\(\)\.deref\(\)\.clone\(\)', 'self.inodes.load_clone(Tracked(hp))', 'snapshot of the table held by the cell (Guard -> Arc -> HashMap, cloned), with the ghost heap (R23)')
-STORE_T = (r'self\.inodes\.store\(Arc::new\(hashmap\)\)', 'self.inodes.store(Arc::new(hashmap), Tracked(hp))', 'ghost heap token (R23) for the ArcSwap store')
 
 
 def remove_child_hook(body, fired):
     """`E.iter().position(|x| C).map(|pos| E.remove(pos)).unwrap();`  ->  `let pos = E.iter().position(|x| { C }); E.remove(pos.unwrap());`
     (Option::map then unwrap: None panics, Some(pos) evaluates the closure on pos; the removed element is dropped either way), then R22."""
-    rx = r'children\s*\.iter\(\)\s*\.position\(\|x\|\s*(x\.name == child\.name)\)\s*\.map\(\|pos\|\s*children\.remove\(pos\)\)\s*\.unwrap\(\);'
+    rx = r'children\s*\.iter\(\)\s*\.position\(\|x\|\s*([^;]+?)\)\s*\.map\(\|pos\|\s*children\.remove\(pos\)\)\s*\.unwrap\(\);'
     n = len(re.findall(rx, body, flags=re.S))
     if n != 1:
         raise X.ExtractError('ANCHOR-LOST remove_child: position/map/unwrap chain matches %d times' % n)
@@ -512,11 +940,11 @@ def unit(root='/repo'):
     new = tok(Fn(PFS, 'impl PseudoInode', 'new', props=P7, canary=True, body_resub=[NEW_K],
                  ensures=['r.ino == ino && r.parent == parent && r.name == name // [C07.pseudo.node.fields]',
                           '!old(hp).kids.contains_key(r.cell()) && %s == (PHeap { kids: old(hp).kids.insert(r.cell(), Seq::<Arc<PseudoInode>>::empty()), ..%s }) // [C07.pseudo.node.no_children]' % (H1, H0)]), [])
-    ins = tok(Fn(PFS, 'impl PseudoInode', 'insert_child', props=P7, canary=True, body_resub=[LOADCLONE_K, STORE_K],
-                 requires=['old(hp).kids.contains_key(self.cell())'],
-                 ensures=['%s == (PHeap { kids: old(hp).kids.insert(self.cell(), old(hp).kids[self.cell()].push(child)), ..%s }) // [C07.pseudo.insert_child.appended]' % (H1, H0)]), [])
-    rmc = tok(Fn(PFS, 'impl PseudoInode', 'remove_child', props=P7, canary=True, body_resub=[LOADCLONE_K, STORE_K],
-                 requires=['old(hp).kids.contains_key(self.cell())',
+    ins = tok(Fn(PFS, 'impl PseudoInode', 'insert_child', props=P7, canary=True, body_resub=[LOADCLONE_K],
+                 requires=['old(hp).kids.contains_key(self.cell()) // [C07.pseudo.insert_child.cell]'],
+                 ensures=['%s == (PHeap { kids: old(hp).kids.insert(self.cell(), old(hp).kids[self.cell()].push(child)), ..%s }) // [C07.pseudo.insert_child.appended]' % (H1, H0)]), ['store'])
+    rmc = tok(Fn(PFS, 'impl PseudoInode', 'remove_child', props=P7, canary=True, body_resub=[LOADCLONE_K],
+                 requires=['old(hp).kids.contains_key(self.cell()) // [C07.pseudo.remove_child.cell]',
                            'exists|j: int| 0 <= j < old(hp).kids[self.cell()].len() && (#[trigger] old(hp).kids[self.cell()][j]).name@ == child.name@ // [C07.pseudo.remove_child.present]'],
                  ensures=['''exists|p: int| 0 <= p < old(hp).kids[self.cell()].len() && (#[trigger] old(hp).kids[self.cell()][p]).name@ == child.name@
                         && (forall|j: int| 0 <= j < p ==> (#[trigger] old(hp).kids[self.cell()][j]).name@ != child.name@)
@@ -524,12 +952,12 @@ def unit(root='/repo'):
                  splices=[('while pos_i < children.len() {', 'replace', '''while pos_i < children.len()
                 invariant_except_break pos is None,
                 invariant pos_i <= children@.len(), children@ == old(hp).kids[self.cell()], *hp == *old(hp),
-                    forall|j: int| 0 <= j < pos_i ==> (#[trigger] children@[j]).name@ != child.name@,
-                ensures pos is Some ==> pos->Some_0 < children@.len() && children@[pos->Some_0 as int].name@ == child.name@ && (forall|j: int| 0 <= j < pos->Some_0 ==> (#[trigger] children@[j]).name@ != child.name@),
+                    forall|j: int| 0 <= j < pos_i ==> (#[trigger] children@[j]).name@ != child.name@, // [C07.pseudo.remove_child.first_named]
+                ensures pos is Some ==> pos->Some_0 < children@.len() && children@[pos->Some_0 as int].name@ == child.name@ && (forall|j: int| 0 <= j < pos->Some_0 ==> (#[trigger] children@[j]).name@ != child.name@), // [C07.pseudo.remove_child.first_named]
                         pos is None ==> (forall|j: int| 0 <= j < children@.len() ==> (#[trigger] children@[j]).name@ != child.name@),
                         children@ == old(hp).kids[self.cell()], *hp == *old(hp),
                 decreases children@.len() - pos_i
-            {''')]), [])
+            {''')]), ['store'])
     rmc.body_hooks = [remove_child_hook]
     items.append(Group('impl PseudoInode {', [new, ins, rmc]))
     PP = 'impl PseudoFs'
@@ -539,23 +967,24 @@ def unit(root='/repo'):
                   requires=['self.cells_ok(*old(hp))',
                             # the counter is never checked by the code: below the limit of the VFS inode encoding only while fewer than 2^56 pseudo inodes were ever created
                             'self.nx(*old(hp)) <= VFS_MAX_INO // [C07.pseudo.new_inode.limit]'],
-                  ensures=['r.ino == self.nx(*old(hp)) && r.ino <= VFS_MAX_INO // [C07.pseudo.new_inode.fresh] the number handed out is the counter value: never used before, below the pseudo-inode limit',
+                  ensures=['r.ino == self.nx(*old(hp)) && r.ino <= VFS_MAX_INO // the number handed out is the counter value: never used before, below the pseudo-inode limit [C07.pseudo.new_inode.fresh]',
                            'r.parent == parent && r.name@ == name@ // [C07.pseudo.new_inode.fields]',
                            '!old(hp).kids.contains_key(r.cell())',
-                           '%s == (PHeap { kids: old(hp).kids.insert(r.cell(), Seq::<Arc<PseudoInode>>::empty()), ctrs: old(hp).ctrs.insert(self.next_inode.id(), (r.ino + 1) as u64), tabs: old(hp).tabs }) // [C07.pseudo.new_inode.counter] the counter moves on by one; table and every existing directory untouched' % H1]),
+                           '%s == (PHeap { kids: old(hp).kids.insert(r.cell(), Seq::<Arc<PseudoInode>>::empty()), ctrs: old(hp).ctrs.insert(self.next_inode.id(), (r.ino + 1) as u64), tabs: old(hp).tabs }) // the counter moves on by one; table and every existing directory untouched [C07.pseudo.new_inode.counter]' % H1]),
                ['fetch_add'])
-    insi = tok(Fn(PFS, PP, 'insert_inode', props=P7, canary=True, body_resub=[LOADCLONE_T, STORE_T],
-                  requires=['old(hp).tabs.contains_key(self.inodes.id())'],
-                  ensures=['%s == (PHeap { tabs: old(hp).tabs.insert(self.inodes.id(), old(hp).tabs[self.inodes.id()].insert(inode.ino, inode)), ..%s }) // [C07.pseudo.insert_inode.table]' % (H1, H0)]), [])
-    rmi = tok(Fn(PFS, PP, 'remove_inode', props=P7, canary=True, body_resub=[LOADCLONE_T, STORE_T],
+    insi = tok(Fn(PFS, PP, 'insert_inode', props=P7, canary=True, body_resub=[LOADCLONE_T],
+                  requires=['old(hp).tabs.contains_key(self.inodes.id()) // [C07.pseudo.insert_inode.cell]'],
+                  ensures=['%s == (PHeap { tabs: old(hp).tabs.insert(self.inodes.id(), old(hp).tabs[self.inodes.id()].insert(inode.ino, inode)), ..%s }) // [C07.pseudo.insert_inode.table]' % (H1, H0)]), ['store'])
+    rmi = tok(Fn(PFS, PP, 'remove_inode', props=P7, canary=True, body_resub=[LOADCLONE_T],
                  requires=['old(hp).tabs.contains_key(self.inodes.id())'],
-                 ensures=['%s == (PHeap { tabs: old(hp).tabs.insert(self.inodes.id(), old(hp).tabs[self.inodes.id()].remove(inode.ino)), ..%s }) // [C07.pseudo.remove_inode.table]' % (H1, H0)]), [])
+                 ensures=['%s == (PHeap { tabs: old(hp).tabs.insert(self.inodes.id(), old(hp).tabs[self.inodes.id()].remove(inode.ino)), ..%s }) // [C07.pseudo.remove_inode.table]' % (H1, H0)]), ['store'])
     crt = tok(Fn(PFS, PP, 'create_inode', props=P7, canary=True,
-                 requires=['self.wf(*old(hp))', 'self.im(*old(hp)).contains_key(parent.ino) && self.im(*old(hp))[parent.ino] == *parent',
-                           'normal_name(name@)', 'self.nx(*old(hp)) <= VFS_MAX_INO',
-                           'forall|j: int| 0 <= j < old(hp).kids[parent.cell()].len() ==> (#[trigger] old(hp).kids[parent.cell()][j]).name@ != name@'],
+                 requires=['self.wf(*old(hp)) // [C07.pseudo.create.wf]',
+                           'self.im(*old(hp)).contains_key(parent.ino) && self.im(*old(hp))[parent.ino] == *parent // the new directory goes under a directory of THIS tree [C07.pseudo.create.parent]',
+                           'normal_name(name@) // [C07.pseudo.create.name]', 'self.nx(*old(hp)) <= VFS_MAX_INO // [C07.pseudo.create.limit]',
+                           'forall|j: int| 0 <= j < old(hp).kids[parent.cell()].len() ==> (#[trigger] old(hp).kids[parent.cell()][j]).name@ != name@ // only a MISSING component is created: no sibling carries the name [C07.pseudo.create.missing]'],
                  ensures=['self.wf(*final(hp)) // [C07.pseudo.create.wf]',
-                          'self.view(*final(hp)) == add_child(self.view(*old(hp)), parent.ino, name@) // [C07.pseudo.create.view] one new directory: numbered by the counter, child of `parent`, appended once to its children; every other node untouched',
+                          'self.view(*final(hp)) == add_child(self.view(*old(hp)), parent.ino, name@) // one new directory: numbered by the counter, child of `parent`, appended once to its children; every other node untouched [C07.pseudo.create.view]',
                           'r.ino == self.nx(*old(hp)) && r.ino <= VFS_MAX_INO && self.im(*final(hp)) == self.im(*old(hp)).insert(r.ino, r) // [C07.pseudo.create.result]'],
                  splices=[('inode\n    }', 'before', '''proof {
             let h0 = *old(hp);
@@ -566,23 +995,25 @@ def unit(root='/repo'):
                  requires=['self.cells_ok(*old(hp))'],
                  ensures=['r == (if self.view(*old(hp)).nodes.contains_key(ino) { Some(self.view(*old(hp)).nodes[ino].parent) } else { None::<u64> }) // [C07.pseudo.get_parent.result]',
                           '%s == %s // [C07.pseudo.get_parent.frame]' % (H1, H0)],
-                 splices=[('|o|', 'closure', '|o: &Arc<PseudoInode>| -> (q: u64) ensures q == o.parent,')]),
+                 splices=[('|o|', 'closure', '|o: &Arc<PseudoInode>| -> (q: u64) ensures q == o.parent, // [C07.pseudo.get_parent.result]\n')]),
               ['load'])
     evi = tok(Fn(PFS, PP, 'evict_inode', props=P7, canary=True,
                  requires=['self.wf(*old(hp))',
                            # the caller (Vfs::umount) evicts the inode path_walk has just returned
                            'self.im(*old(hp)).contains_key(ino) // [C07.pseudo.evict.known]'],
                  ensures=['self.wf(*final(hp)) // [C07.pseudo.evict.wf]',
-                          'self.view(*final(hp)) == evict_spec(self.view(*old(hp)), ino) // [C07.pseudo.evict.view] exactly that node goes (table and parent\'s children), never the root, never a directory with children; every other node untouched'],
+                          'self.view(*final(hp)) == evict_spec(self.view(*old(hp)), ino) // exactly that node goes (table and parent\'s children), never the root, never a directory with children; every other node untouched [C07.pseudo.evict.view]'],
                  splices=[('let parent = inodes.get(&inode.parent).unwrap();', 'after', '''let ghost h0 = *old(hp); let ghost m0 = self.im(h0);
         proof {
             assert(*hp == h0);
-            assert(m0[ino] == *inode && m0.contains_key(m0[ino].parent) && mkids(m0, h0, m0[ino].parent).contains(m0[ino]));
+            assert(m0[ino] == *inode && ino != ROOT_ID); // the root (its own parent) is never evicted [C07.pseudo.evict.root]
+            assert(m0.contains_key(m0[ino].parent) && mkids(m0, h0, m0[ino].parent).contains(m0[ino]));
         }'''),
                           ('self.remove_inode(inode, Tracked(hp));', 'after', '''proof {
             let kp = mkids(m0, h0, m0[ino].parent);
             let x = choose|x: int| 0 <= x < kp.len() && (#[trigger] kp[x]).name@ == m0[ino].name@ && (forall|j: int| 0 <= j < x ==> (#[trigger] kp[j]).name@ != m0[ino].name@)
                 && hp.kids == h0.kids.insert(m0[m0[ino].parent].cell(), kp.remove(x));
+            assert(mkids(m0, h0, ino).len() == 0); // a directory with children is never evicted [C07.pseudo.evict.childless]
             lemma_evict(m0, self.root_inode, self.nx(h0), h0, ino, x, *hp);
         }''')]),
               ['load', 'remove_child', 'remove_inode'])
@@ -594,11 +1025,11 @@ def unit(root='/repo'):
                    r'\1let kids2 = inode.children.load(Tracked(hp)); for child in kids2.iter() {', 'the temporary of the `for` iterator expression (lives for the whole loop) bound to a name (scan under the lock)')
     KIDS_OPT = (r'for child in inode\.children\.load\(Tracked\(hp\)\)\.iter\(\) \{',
                 r'let kids1 = inode.children.load(Tracked(hp)); for child in kids1.iter() {', 'the temporary of the `for` iterator expression bound to a name (optimistic scan)')
-    STREQ = (r'\bchild\.name == (name|child_name)\b', r'str_eq(&child.name, \1)', 'every: `String == &str` (PartialEq<&str> for String: same characters) -> model str_eq')
-    EINVAL_CL = '|| -> (q: Error) ensures q.os_code() == Some(libc::EINVAL),'
+    STREQ = (r'\bchild\.name == (\w+)\b', r'str_eq(&child.name, \1)', 'every: `String == &str` (PartialEq<&str> for String: same characters) -> model str_eq')
+    EINVAL_CL = '|| -> (q: Error) ensures q.os_code() == Some(libc::EINVAL), // [C07.pseudo.path_walk.bad_component]\n'
     SCAN1 = """#[verifier::loop_isolation(false)]
                     for child in it1: kids1.iter()
-                        invariant *inode == cur0, forall|j: int| 0 <= j < it1.index@ ==> (#[trigger] kids1@[j]).name@ != name@,
+                        invariant *inode == cur0, forall|j: int| 0 <= j < it1.index@ ==> (#[trigger] kids1@[j]).name@ != name@, // [C07.pseudo.walk.scan]
                     {"""
     SCAN2 = SCAN1.replace('it1', 'it2').replace('kids1', 'kids2')
     FOUND = """let ghost cur0 = *inode; proof { lemma_child_named(self.im(*hp), self.root_inode, self.nx(*hp), *hp, inode.ino, name@); } // [C07.pseudo.%s.child] the component resolves to THE child of that name"""
@@ -606,17 +1037,17 @@ def unit(root='/repo'):
             invariant
                 *hp == *old(hp), self.wf(*hp), inodes@ == self.im(*hp), path@ == mountpoint@,
                 self.im(*hp).contains_key(inode.ino) && self.im(*hp)[inode.ino] == *inode,
-                walk_spec(self.view(*hp), ROOT_ID, path_comps(mountpoint@)) == walk_spec(self.view(*hp), inode.ino, comp_it.rest()), // [C07.pseudo.path_walk.step] each component is resolved from where the previous one ended
+                walk_spec(self.view(*hp), ROOT_ID, path_comps(mountpoint@)) == walk_spec(self.view(*hp), inode.ino, comp_it.rest()), // each component is resolved from where the previous one ended [C07.pseudo.path_walk.step]
             decreases comp_it.rest().len()
         """
     pw = tok(Fn(PFS, PP, 'path_walk', props=P7, canary=True, body_resub=[KIDS_LOCKED, KIDS_OPT, STREQ],
                 requires=['self.wf(*old(hp))'],
-                ensures=['%s == %s // [C07.pseudo.path_walk.frame] walking changes nothing' % (H1, H0),
+                ensures=['%s == %s // walking changes nothing [C07.pseudo.path_walk.frame]' % (H1, H0),
                          '!path_has_root(mountpoint@) ==> r is Err && r->Err_0.os_code() == Some(libc::EINVAL) // [C07.pseudo.path_walk.relative]',
                          """path_has_root(mountpoint@) ==> (match walk_spec(self.view(*old(hp)), ROOT_ID, path_comps(mountpoint@)) {
                             PWalk::Found(i) => r is Ok && r->Ok_0 == Some(i),
                             PWalk::Missing => r is Ok && r->Ok_0 is None,
-                            PWalk::Bad => r is Err && r->Err_0.os_code() == Some(libc::EINVAL) }) // [C07.pseudo.path_walk.result] Some(ino) iff every component exists, and then the inode the walk ends in; None as soon as one is missing"""],
+                            PWalk::Bad => r is Err && r->Err_0.os_code() == Some(libc::EINVAL) }) // Some(ino) iff every component exists, and then the inode the walk ends in; None as soon as one is missing [C07.pseudo.path_walk.result]"""],
                 splices=[('||', 'closure', EINVAL_CL),
                          ('for child in kids1.iter() {', 'replace', SCAN1), ('for child in kids2.iter() {', 'replace', SCAN2),
                          ('let kids1 = ', 'before', FOUND % 'path_walk')]),
@@ -628,7 +1059,7 @@ def unit(root='/repo'):
             invariant
                 self.wf(*hp), inodes@ == self.im(*hp), path@ == mountpoint@,
                 self.im(*hp).contains_key(inode.ino) && self.im(*hp)[inode.ino] == *inode,
-                mount_spec(self.view(*old(hp)), ROOT_ID, path_comps(mountpoint@)) == mount_spec(self.view(*hp), inode.ino, comp_it.rest()), // [C07.pseudo.mount.step] each component is resolved - or created - from where the previous one ended
+                mount_spec(self.view(*old(hp)), ROOT_ID, path_comps(mountpoint@)) == mount_spec(self.view(*hp), inode.ino, comp_it.rest()), // each component is resolved - or created - from where the previous one ended [C07.pseudo.mount.step]
                 self.nx(*hp) + comp_it.rest().len() <= VFS_MAX_INO + 1,
                 forall|j: int| 0 <= j < comp_it.rest().len() && (#[trigger] comp_it.rest()[j]) is Normal ==> normal_name(comp_it.rest()[j]->Normal_0),
             decreases comp_it.rest().len()
@@ -641,7 +1072,7 @@ def unit(root='/repo'):
                           '!path_has_root(mountpoint@) ==> r is Err && r->Err_0.os_code() == Some(libc::EINVAL) && %s == %s // [C07.pseudo.mount.relative]' % (H1, H0),
                           """path_has_root(mountpoint@) ==> (match mount_spec(self.view(*old(hp)), ROOT_ID, path_comps(mountpoint@)) {
                             Some(vi) => r is Ok && r->Ok_0 == vi.1 && self.view(*final(hp)) == vi.0,
-                            None => r is Err && r->Err_0.os_code() == Some(libc::EINVAL) }) // [C07.pseudo.mount.result] exactly the missing components are created (each once, under the right parent, numbered by the counter), the inode of the last component is returned, every other node is untouched"""],
+                            None => r is Err && r->Err_0.os_code() == Some(libc::EINVAL) }) // exactly the missing components are created (each once, under the right parent, numbered by the counter), the inode of the last component is returned, every other node is untouched [C07.pseudo.mount.result]"""],
                  splices=[('for child in kids1.iter() {', 'replace', SCAN1), ('for child in kids2.iter() {', 'replace', SCAN2),
                           ('let kids1 = ', 'before', FOUND % 'mount')]),
               ['load', 'create_inode'])
@@ -656,17 +1087,17 @@ def unit(root='/repo'):
         Fn(ABI, 'impl From<Attr> for stat64', 'from', props=P7, ensures=['r == stat_of_attr(attr) // [C07.pseudo.attr.fields]'])]))
     EPOCH = (r'SystemTime::UNIX_EPOCH', 'SystemTime::unix_epoch()', 'associated constant of an opaque model type -> constructor function')
     ge = Fn(PFS, PP, 'get_entry', props=P7, canary=True, body_resub=[EPOCH],
-            ensures=['pseudo_entry(r, ino) // [C07.pseudo.get_entry.dir] the number asked for, described as a directory'],
+            ensures=['pseudo_entry(r, ino) // the number asked for, described as a directory [C07.pseudo.get_entry.dir]'],
             splices=[('attr.blksize = 4096;', 'after', 'proof { assert(0o040000u32 | 0o700u32 | 0o070u32 | 0o007u32 == 0o040777u32) by (bit_vector); assert(1u64 << 32 == 0x1_0000_0000u64) by (bit_vector); }')])
-    ENOENT_CL = '|| -> (q: Error) ensures q.os_code() == Some(libc::ENOENT),'
+    ENOENT_CL = '|| -> (q: Error) ensures q.os_code() == Some(libc::ENOENT), // [%s]\n'
     KIDS_P = (r'for child in pinode\.children\.load\(Tracked\(hp\)\)\.iter\(\) \{', r'let kidsp = pinode.children.load(Tracked(hp)); for child in kidsp.iter() {',
               'the temporary of the `for` iterator expression bound to a name')
     LK_SCAN = """proof { assert forall|j: int| 0 <= j < kidsp@.len() implies (#[trigger] kidsp@[j]).ino != 0 by { assert(mkids(self.im(*hp), *hp, parent)[j] == kidsp@[j]); } }
                 #[verifier::loop_isolation(false)]
                 for child in itp: kidsp.iter()
-                    invariant_except_break ino == 0, forall|j: int| 0 <= j < itp.index@ ==> (#[trigger] kidsp@[j]).name@ != child_name@,
+                    invariant_except_break ino == 0, forall|j: int| 0 <= j < itp.index@ ==> (#[trigger] kidsp@[j]).name@ != child_name@, // [C07.pseudo.lookup.scan]
                     ensures ino == 0 ==> (forall|j: int| 0 <= j < kidsp@.len() ==> (#[trigger] kidsp@[j]).name@ != child_name@),
-                            ino != 0 ==> (exists|j: int| 0 <= j < kidsp@.len() && (#[trigger] kidsp@[j]).name@ == child_name@ && ino == kidsp@[j].ino),
+                            ino != 0 ==> (exists|j: int| 0 <= j < kidsp@.len() && (#[trigger] kidsp@[j]).name@ == child_name@ && ino == kidsp@[j].ino), // [C07.pseudo.lookup.scan]
                 {"""
     lk = tok(Fn(PFS, FS, 'lookup', props=P7, canary=True, body_resub=[KIDS_P, STREQ], sig_subst=[('_: &Context', '_ctx: &Context')],     # R3 for a parameter: `_` named (the verus! macro wants identifiers)
                 requires=['self.wf(*old(hp))'],
@@ -675,9 +1106,9 @@ def unit(root='/repo'):
                          'self.view(*old(hp)).nodes.contains_key(parent) && !is_utf8(name@) ==> r is Err && r->Err_0.os_code() == Some(libc::EINVAL) // [C07.pseudo.lookup.bad_name]',
                          """self.view(*old(hp)).nodes.contains_key(parent) && is_utf8(name@) ==> (match lookup_target(self.view(*old(hp)), parent, utf8_dec(name@)) {
                             Some(i) => r is Ok && pseudo_entry(r->Ok_0, i),
-                            None => r is Err && r->Err_0.os_code() == Some(libc::ENOENT) }) // [C07.pseudo.lookup.result] the child of `parent` with that name (its inode number, directory attributes), `.` = the directory, `..` = its parent, ENOENT otherwise"""],
-                splices=[('||', 'closure', ENOENT_CL),
-                         ('|_v|', 'closure', '|_v: Utf8Error| -> (q: Error) ensures q.os_code() == Some(libc::EINVAL),'),
+                            None => r is Err && r->Err_0.os_code() == Some(libc::ENOENT) }) // the child of `parent` with that name (its inode number, directory attributes), `.` = the directory, `..` = its parent, ENOENT otherwise [C07.pseudo.lookup.result]"""],
+                splices=[('||', 'closure', ENOENT_CL % 'C07.pseudo.lookup.unknown_parent'),
+                         ('|_v|', 'closure', '|_v: Utf8Error| -> (q: Error) ensures q.os_code() == Some(libc::EINVAL), // [C07.pseudo.lookup.bad_name]\n'),
                          ('let mut ino: u64 = 0;', 'after', """proof {
             reveal_strlit("."); reveal_strlit(".."); assert("."@ =~= dot()); assert(".."@ =~= dotdot());
             lemma_child_named(self.im(*hp), self.root_inode, self.nx(*hp), *hp, parent, child_name@);
@@ -688,11 +1119,11 @@ def unit(root='/repo'):
                 requires=['self.cells_ok(*old(hp))', 'forall|k: u64| #[trigger] self.im(*old(hp)).contains_key(k) ==> self.im(*old(hp))[k].ino == k'],
                 ensures=['%s == %s // [C07.pseudo.getattr.frame]' % (H1, H0),
                          '!self.view(*old(hp)).nodes.contains_key(inode) ==> r is Err && r->Err_0.os_code() == Some(libc::ENOENT) // [C07.pseudo.getattr.unknown]',
-                         'self.view(*old(hp)).nodes.contains_key(inode) ==> r is Ok && (exists|e: Entry| pseudo_entry(e, inode) && r->Ok_0.0 == e.attr && r->Ok_0.1 == e.attr_timeout) // [C07.pseudo.getattr.dir] the attributes lookup reports for the same number'],
-                splices=[('||', 'closure', ENOENT_CL),
-                         ('|inode|', 'closure', '|inode: &Arc<PseudoInode>| -> (q: u64) ensures q == inode.ino,')]),
+                         'self.view(*old(hp)).nodes.contains_key(inode) ==> r is Ok && (exists|e: Entry| pseudo_entry(e, inode) && r->Ok_0.0 == e.attr && r->Ok_0.1 == e.attr_timeout) // the attributes lookup reports for the same number [C07.pseudo.getattr.dir]'],
+                splices=[('||', 'closure', ENOENT_CL % 'C07.pseudo.getattr.unknown'),
+                         ('|inode|', 'closure', '|inode: &Arc<PseudoInode>| -> (q: u64) ensures q == inode.ino, // [C07.pseudo.getattr.dir]\n')]),
              ['load'])
-    acc = Fn(PFS, FS, 'access', props=P7, canary=True, ensures=['r is Ok // [C07.pseudo.access.ok] every pseudo directory is accessible to everyone (mode rwxrwxrwx)'])
+    acc = Fn(PFS, FS, 'access', props=P7, canary=True, ensures=['r is Ok // every pseudo directory is accessible to everyone (mode rwxrwxrwx) [C07.pseudo.access.ok]'])
     items.append(Group('impl PseudoFs {', [ge, lk, ga, acc]))
 
     # ---------------------------------------------------------------- do_readdir / readdir / readdirplus (C16)
@@ -701,8 +1132,11 @@ def unit(root='/repo'):
     ENTS = 'dir_entries(self.view(*old(hp)), parent)'
     DR_RESUB = [(r'\badd_entry\(', 'add_entry.call(', 'call of the `&mut dyn FnMut` callback -> method call on the generic AddEntry object (ghost log)'),
                 (r'child\.name\.clone\(\)\.as_bytes\(\)', 'str_bytes(&child.name)', 'String::clone().as_bytes(): the UTF-8 bytes of a copy of the name -> model str_bytes'),
-                (r'for child in children\[offset as usize\.\.\]\.iter\(\) \{', 'let run = vx_slice_from(&children, offset as usize); for child in run.iter() {',
-                 'range indexing `&v[a..]` -> model vx_slice_from (in-bounds is its precondition, i.e. "cannot panic" is proved); the `for` iterator temporary bound to a name')]
+                (r'for child in children\[([^\]]*?)\.\.\]\.iter\(\) \{', r'let run = vx_slice_from(&children, \1); for child in run.iter() {',
+                 'range indexing `&v[a..]` -> model vx_slice_from (in-bounds is its precondition, i.e. "cannot panic" is proved); the `for` iterator temporary bound to a name'),
+                (r'match (add_entry\.call\(DirEntry \{[^{}]*\}\)) \{', r'let cb_res = \1; match cb_res {',
+                 'the scrutinee of the match bound to a name (same value, same arms): a ghost step can then stand between the call and the arms')]
+    NC = 'new_calls(add_entry.log(), log0)'
     DR_LOOP = """let ghost es = dir_entries(self.view(*hp), parent); let ghost log0 = add_entry.log(); let ghost kp = mkids(self.im(*hp), *hp, parent); let ghost run_e = run_after(es, offset);
         proof {
             assert(es.len() == kp.len() && run_e.len() == run@.len());
@@ -711,40 +1145,47 @@ def unit(root='/repo'):
             }
             lemma_all_accepted_empty(run_e);
         }
-        let ghost mut stopped = false;
         #[verifier::loop_isolation(false)]
         for child in it: run.iter()
-            invariant_except_break !stopped,
+            invariant_except_break
+                !last_refused(NC), // Ok(0) = no room, Err = failure: the walk stops there, the entry is not skipped [C16.pseudo.do_readdir.stop]
+                all_accepted(NC, run_e.take(it.index@ as int)), // every child of the run so far was offered once, in order, and accepted [C16.pseudo.do_readdir.loop]
+                next == offset + 1 + it.index@, // entry i carries offset i + 1: resuming from it starts right after that entry [C16.pseudo.do_readdir.offsets]
             invariant
-                extends(add_entry.log(), log0),
-                !stopped ==> next == offset + 1 + it.index@, // [C16.pseudo.do_readdir.offsets] entry i carries offset i + 1: resuming from it starts right after that entry
-                !stopped ==> all_accepted(new_calls(add_entry.log(), log0), run_e.take(it.index@ as int)), // [C16.pseudo.do_readdir.loop] every child of the run so far was offered once, in order, and accepted
-                stopped ==> delivered_ok(run_e, new_calls(add_entry.log(), log0)) && new_calls(add_entry.log(), log0).len() > 0 && new_calls(add_entry.log(), log0).last().ok == Some(0usize), // [C16.pseudo.do_readdir.stop] Ok(0) = no room: stop there without skipping the entry
-                forall|j: int| 0 <= j < new_calls(add_entry.log(), log0).len() ==> (#[trigger] new_calls(add_entry.log(), log0)[j]).ty == DT_DIR, // [C16.pseudo.do_readdir.type]
+                extends(add_entry.log(), log0), old(add_entry).inv() ==> add_entry.inv(),
+                forall|j: int| 0 <= j < NC.len() ==> (#[trigger] NC[j]).ty == DT_DIR, // [C16.pseudo.do_readdir.type]
+            ensures
+                last_refused(NC) ==> delivered_ok(run_e, NC), // [C16.pseudo.do_readdir.stop]
+                last_refused(NC) ==> NC.last().ok is Some, // a failure of the callback is handed on, never swallowed [C16.pseudo.do_readdir.err]
+                !last_refused(NC) ==> all_accepted(NC, run_e.take(run_e.len() as int)), // [C16.pseudo.do_readdir.loop]
         {
             let ghost log1 = add_entry.log(); let ghost i = it.index@ as int;
-            proof { assert(*child == kp[offset + i]); assert(run_e[i] == es[offset + i]); }"""
-    DR_ARM = 'proof { let calls1 = new_calls(log1, log0); let c = add_entry.log().last(); assert(new_calls(add_entry.log(), log0) =~= calls1.push(c)); assert(add_entry.log().take(log0.len() as int) =~= log1.take(log0.len() as int)); assert(call_matches(c, run_e[i])); /* [C16.pseudo.do_readdir.entry] the child is offered with its own number, offset and name */ %s }'
+            proof { assert(*child == kp[offset + i]); assert(run_e[i] == es[offset + i]); }""".replace('NC', NC)
+    DR_STEP = """proof {
+                let calls1 = new_calls(log1, log0); let c = add_entry.log().last();
+                assert(NC =~= calls1.push(c)); assert(add_entry.log().take(log0.len() as int) =~= log1.take(log0.len() as int));
+                assert(call_matches(c, run_e[i])); // the child is offered with its own number, offset and name [C16.pseudo.do_readdir.entry]
+                if accepted(c) { lemma_step_accept(run_e, i, calls1, c); } else { lemma_step_stop(run_e, i, calls1, c); }
+            }""".replace('NC', NC)
     dr = tok(Fn(PFS, PP, 'do_readdir', props=P16, canary=True, ret_name='res', sig_subst=DR_SIG, body_resub=DR_RESUB,
                 requires=['self.wf(*old(hp))'],
-                ensures=['%s == %s // [C16.pseudo.do_readdir.frame] listing changes nothing' % (H1, H0),
+                ensures=['%s == %s // listing changes nothing [C16.pseudo.do_readdir.frame]' % (H1, H0),
                          'extends(final(add_entry).log(), old(add_entry).log())',
+                         'old(add_entry).inv() ==> final(add_entry).inv()',
                          'size == 0 ==> res is Ok && %s.len() == 0 // [C16.pseudo.do_readdir.size0]' % CALLS,
                          'size != 0 && !self.view(*old(hp)).nodes.contains_key(parent) ==> res is Err && res->Err_0.os_code() == Some(libc::ENOENT) && %s.len() == 0 // [C16.pseudo.do_readdir.unknown]' % CALLS,
                          # the core: from offset 0 or the offset of any entry delivered before, the run that starts right after it is offered, each entry once, in order
-                         'size != 0 && self.view(*old(hp)).nodes.contains_key(parent) ==> delivered_ok(run_after(%s, offset), %s) // [C16.pseudo.do_readdir.resume] the entries after the resume offset are offered each once, in order, nothing after a refusal, nothing skipped; an offset at or beyond the end gives the empty reply' % (ENTS, CALLS),
-                         'forall|j: int| 0 <= j < %s.len() ==> (#[trigger] %s[j]).ty == DT_DIR // [C16.pseudo.do_readdir.type] every pseudo inode is a directory' % (CALLS, CALLS),
-                         'size != 0 && self.view(*old(hp)).nodes.contains_key(parent) ==> (res is Err <==> %s.len() > 0 && %s.last().ok is None) // [C16.pseudo.do_readdir.err] an error is the callback\'s own, handed on; the listing itself cannot fail' % (CALLS, CALLS)],
-                splices=[('||', 'closure', ENOENT_CL),
+                         'size != 0 && self.view(*old(hp)).nodes.contains_key(parent) ==> delivered_ok(run_after(%s, offset), %s) // the entries after the resume offset are offered each once, in order, nothing after a refusal, nothing skipped; an offset at or beyond the end gives the empty reply [C16.pseudo.do_readdir.resume]' % (ENTS, CALLS),
+                         'forall|j: int| 0 <= j < %s.len() ==> (#[trigger] %s[j]).ty == DT_DIR // every pseudo inode is a directory [C16.pseudo.do_readdir.type]' % (CALLS, CALLS),
+                         'size != 0 && self.view(*old(hp)).nodes.contains_key(parent) ==> (res is Err <==> %s.len() > 0 && %s.last().ok is None) // an error is the callback\'s own, handed on; the listing itself cannot fail [C16.pseudo.do_readdir.err]' % (CALLS, CALLS)],
+                splices=[('||', 'closure', ENOENT_CL % 'C16.pseudo.do_readdir.unknown'),
                          ('^', 'after', 'proof { let l = add_entry.log(); assert(l.take(l.len() as int) =~= l); assert(new_calls(l, l) =~= Seq::<CallRec>::empty()); }'),
-                         ('let mut next = offset + 1;', 'before', '''proof {
+                         ('let mut next = ', 'before', '''proof {
             assert(offset < u64::MAX); // [C16.pseudo.do_readdir.offset_overflow]
         }'''),
-                         ('let run = vx_slice_from(&children, offset as usize); for child in run.iter() {', 'replace', 'let run = vx_slice_from(&children, offset as usize);\n' + DR_LOOP),
-                         ('Ok(0) => break,', 'replace', 'Ok(0) => { ' + DR_ARM % 'lemma_step_stop(run_e, i, calls1, c); stopped = true;' + ' break },'),
-                         ('Ok(_) => next += 1,', 'replace', 'Ok(_) => { ' + DR_ARM % 'lemma_step_accept(run_e, i, calls1, c);' + ' next += 1 },'),
-                         ('Err(r) => return Err(r),', 'replace', 'Err(r) => { ' + DR_ARM % 'lemma_step_stop(run_e, i, calls1, c);' + ' return Err(r) },'),
-                         ('Ok(())\n    }', 'before', 'proof { if !stopped { lemma_step_done(run_e, new_calls(add_entry.log(), log0)); } }')]),
+                         ('for child in run.iter() {', 'replace', DR_LOOP),
+                         ('match cb_res {', 'before', DR_STEP),
+                         ('Ok(())\n    }', 'before', 'proof { if !last_refused(%s) { lemma_step_done(run_e, %s); } }' % (NC, NC))]),
              ['load'])
     RD_SIG = [('fn readdir(', 'fn readdir<A: AddEntry>('), ('add_entry: &mut dyn FnMut(DirEntry) -> Result<usize>', 'add_entry: &mut A'), ('_: u64', '_fh: u64')]
     rd = tok(Fn(PFS, FS, 'readdir', props=P16, canary=True, ret_name='res', sig_subst=RD_SIG,
@@ -753,5 +1194,51 @@ def unit(root='/repo'):
              ['do_readdir'])
     items.append(Raw(SLICE))
     items.append(Group('impl PseudoFs {', [dr, rd]))
+
+    # ---------------------------------------------------------------- PseudoFs::new
+    NEW_RESUB = [NEWCALL,
+                 (r'AtomicU64::new\(PSEUDOFS_NEXT_INODE\)', 'AtomicU64H::new(PSEUDOFS_NEXT_INODE, Tracked(hp))', 'heap cell + ghost heap token (R23)'),
+                 (r'ArcSwap::new\(Arc::new\(HashMap::new\(\)\)\)', 'ArcSwapT::new(Arc::new(HashMap::new()), Tracked(hp))', 'heap cell + ghost heap token (R23)'),
+                 (r'String::from\("/"\)', 'string_from("/")', 'String::from(&str): same characters')]
+    nw = tok(Fn(PFS, PP, 'new', props=P7, canary=True, body_resub=NEW_RESUB,
+                ensures=['r.wf(*final(hp)) // a new pseudo fs satisfies the invariant [C07.pseudo.new.wf]',
+                         'r.view(*final(hp)).next == 2 && r.view(*final(hp)).nodes.dom() =~= set![ROOT_ID] && r.view(*final(hp)).nodes[ROOT_ID].parent == ROOT_ID && r.view(*final(hp)).nodes[ROOT_ID].kids.len() == 0 // only the root, its own parent, no children; numbers start at 2 [C07.pseudo.new.view]',
+                         'forall|c: int| #[trigger] old(hp).kids.contains_key(c) ==> final(hp).kids.contains_key(c) && final(hp).kids[c] == old(hp).kids[c]',
+                         'forall|c: int| #[trigger] old(hp).tabs.contains_key(c) ==> final(hp).tabs.contains_key(c) && final(hp).tabs[c] == old(hp).tabs[c]',
+                         'forall|c: int| #[trigger] old(hp).ctrs.contains_key(c) ==> final(hp).ctrs.contains_key(c) && final(hp).ctrs[c] == old(hp).ctrs[c]'],
+                splices=[('fs\n    }', 'before', 'proof { assert(fs.im(*hp) =~= Map::<u64, Arc<PseudoInode>>::empty().insert(ROOT_ID, fs.root_inode)); assert(kid_inos(mkids(fs.im(*hp), *hp, ROOT_ID)) =~= Seq::<u64>::empty()); }')]),
+             ['insert_inode'])
+    items.append(Group('impl PseudoFs {', [nw]))
+
+    # ---------------------------------------------------------------- readdirplus
+    DE = "DirEntry<'b>"
+    lifted = Lifted(PFS, FS, 'readdirplus', 0, "fn readdirplus_entry<'b>(&self, inode: u64, dir_entry: %s) -> (res: Result<(%s, Entry)>)" % (DE, DE), 'add_entry',
+                    ensures=['res is Ok && res->Ok_0.0 == dir_entry && pseudo_entry(res->Ok_0.1, dir_entry.ino) // the entry is handed on unchanged, together with the directory attributes of ITS number [C16.pseudo.readdirplus.entry]'],
+                    props=P16, canary=True)
+    RP_SIG = [('fn readdirplus(', 'fn readdirplus<B: AddEntryPlus>('), ('add_entry: &mut dyn FnMut(DirEntry, Entry) -> Result<usize>', 'add_entry: &mut B')]
+    RP_CLOSURE = (r'&mut \|dir_entry\| \{(?:[^{}]|\{[^{}]*\})*\}', 'plus_sink(self, add_entry)',
+                  'the closure handed to do_readdir -> adapter object plus_sink (R17: the closure text is verified as the lifted function readdirplus_entry against the contract the adapter assumes, then add_entry)')
+    PC = 'bases(new_plus(final(add_entry).plog(), old(add_entry).plog()))'
+    rp = tok(Fn(PFS, FS, 'readdirplus', props=P16, canary=True, ret_name='res', sig_subst=RP_SIG, body_resub=[RP_CLOSURE],
+                requires=['self.wf(*old(hp))'],
+                ensures=['%s == %s // [C16.pseudo.readdirplus.frame]' % (H1, H0),
+                         'extends(bases(final(add_entry).plog()), bases(old(add_entry).plog()))',
+                         'size == 0 ==> res is Ok && %s.len() == 0 // [C16.pseudo.readdirplus.size0]' % PC,
+                         'size != 0 && !self.view(*old(hp)).nodes.contains_key(inode) ==> res is Err && res->Err_0.os_code() == Some(libc::ENOENT) && %s.len() == 0 // [C16.pseudo.readdirplus.unknown]' % PC,
+                         'size != 0 && self.view(*old(hp)).nodes.contains_key(inode) ==> delivered_ok(run_after(dir_entries(self.view(*old(hp)), inode), offset), %s) // the same listing as readdir: same directory, same resume offset [C16.pseudo.readdirplus.resume]' % PC,
+                         'forall|j: int| 0 <= j < %s.len() ==> (#[trigger] %s[j]).ty == DT_DIR // [C16.pseudo.readdirplus.type]' % (PC, PC),
+                         'forall|j: int| 0 <= j < new_plus(final(add_entry).plog(), old(add_entry).plog()).len() ==> pseudo_entry((#[trigger] new_plus(final(add_entry).plog(), old(add_entry).plog())[j]).entry, new_plus(final(add_entry).plog(), old(add_entry).plog())[j].base.ino) // every entry comes with the directory attributes of its own number [C16.pseudo.readdirplus.attrs]'],
+                splices=[('self.do_readdir(', 'replace', 'let ghost l0 = add_entry.plog(); let res_ = self.do_readdir('),
+                         ('Tracked(hp))', 'replace', '''Tracked(hp));
+        proof {
+            let l1 = add_entry.plog();
+            assert(extends(bases(l1), bases(l0)));
+            lemma_bases_skip(l1, l0.len() as int); lemma_bases_skip(l0, l0.len() as int);
+        }
+        res_''')]),
+             ['do_readdir'])
+    items.append(Raw(PLUS))
+    items.append(Raw('pub open spec fn new_plus(l: Seq<PlusRec>, l0: Seq<PlusRec>) -> Seq<PlusRec> { l.skip(l0.len() as int) }'))
+    items.append(Group('impl PseudoFs {', [lifted, rp]))
     u = Unit('pseudofs', items, preludes=['base.rs', 'stdmodel.rs'], generic_tags={})
     return u
